@@ -90,6 +90,15 @@ func (x *FnCtx) axiom(t *Term) {
 	if t.IsTrue() || x.axiomSeen[t.ID] {
 		return
 	}
+	if t.Op == "and" {
+		for _, a := range t.Args {
+			x.axiom(a)
+		}
+		return
+	}
+	if mentionsBound(t) {
+		return
+	}
 	x.axiomSeen[t.ID] = true
 	x.axioms = append(x.axioms, t)
 }
@@ -1018,4 +1027,29 @@ func calleeName(c *ssa.CallCommon) string {
 		return v.Name()
 	}
 	return "dynamic"
+}
+
+// mentionsBound: the term has a quantifier-bound variable (named x?N) free in it.
+func mentionsBound(t *Term) bool {
+	seen := map[int]bool{}
+	var walk func(t *Term) bool
+	walk = func(t *Term) bool {
+		if seen[t.ID] {
+			return false
+		}
+		seen[t.ID] = true
+		if t.Op == "var" && strings.Contains(t.Name, "?") {
+			return true
+		}
+		if t.Op == "forall" || t.Op == "exists" {
+			return false
+		}
+		for _, a := range t.Args {
+			if walk(a) {
+				return true
+			}
+		}
+		return false
+	}
+	return walk(t)
 }
